@@ -205,8 +205,10 @@ namespace Givaro {
                                                                             , Residu_t MOD ) const
     {
         Rep W,D;
-        this->gcd(W,this->diff(D,P),P);
         Degree d, dP;
+        // zero and the non-zero constants (units) are not irreducible
+        if (this->degree(dP,P) <= 0) return 0;
+        this->gcd(W,this->diff(D,P),P);
         if (this->degree(d,W) > 0) return 0;
         // Distinct degree free ?
         Rep Unit, G1;
